@@ -97,3 +97,51 @@ Fixpoint tmps_in (st : pstmt) {struct st} : bool :=
 Fixpoint tmps_in_block (b : list pstmt) : bool :=
   match b with [] => true | x :: r => tmps_in x && tmps_in_block r end.
 End Tmps.
+
+(* ---------------------------------------------------------------- statement skeleton *)
+(* A canonical text of the statement skeleton of compiled code (expressions
+   abstracted to "E" unless they are the special names `__ctx__`, `__fpy_real`
+   or a context temporary).  harness/props/c04.py prints the same text from the
+   Python AST the real BytecodeCompiler emitted; Coq compares the two, which ties
+   the scheme the theorems are about to the code actually emitted. *)
+From Coq Require Import DecimalString.
+Open Scope string_scope.
+
+Definition nat_str (n : nat) : string := NilZero.string_of_uint (Nat.to_uint n).
+
+Definition show_name (x : pname) : string :=
+  match x with NUser x => "u:" ++ x | NCtx => "ctx" | NTmp k => "t" ++ nat_str k end.
+
+Definition show_pexpr (e : pexpr) : string :=
+  match e with PE _ => "E" | PName x => show_name x | PRealC => "real" end.
+
+Fixpoint show_pat (p : pat) : string :=
+  match p with
+  | PVar x => "u:" ++ x
+  | PWild => "u:_"
+  | PTuple ps => "(" ++ String.concat "," (map show_pat ps) ++ ")"
+  end.
+
+Definition show_target (t : ptarget) : string :=
+  match t with TPat p => show_pat p | TName x => show_name x end.
+
+Fixpoint show_pstmt (st : pstmt) {struct st} : string :=
+  let blk := fix blk (b : list pstmt) : string :=
+    match b with [] => "" | x :: r => show_pstmt x ++ ";" ++ blk r end in
+  match st with
+  | PAssign ts e => "A[" ++ String.concat "=" (map show_target ts) ++ "=" ++ show_pexpr e ++ "]"
+  | PIndexAssign x idx _ => "I[" ++ x ++ "/" ++ nat_str (List.length idx) ++ "]"
+  | PExpr _ => "X"
+  | PIf _ t f => "If{" ++ blk t ++ "}{" ++ blk f ++ "}"
+  | PWhile _ b => "Wh{" ++ blk b ++ "}"
+  | PFor p _ b => "For[" ++ show_pat p ++ "]{" ++ blk b ++ "}"
+  | PTry b fin => "Try{" ++ blk b ++ "}{" ++ blk fin ++ "}"
+  | PReturn _ => "R"
+  | PAssert _ => "As"
+  | PPass => "P"
+  end.
+
+Fixpoint show_block (b : list pstmt) : string :=
+  match b with [] => "" | x :: r => show_pstmt x ++ ";" ++ show_block r end.
+
+Definition skeleton (fn : func) : string := show_block (compile_func fn).
